@@ -818,6 +818,28 @@ Proof.
 Qed.
 End PartsCb.
 
+(* property C05: an original block keeps its payload and arity; a successor stays, or - if it is in S -
+   becomes an assignment block of the level *)
+Theorem insert_cb_h_conserves : forall x n p, find h x = Some n -> n_kind n = KOrig p ->
+  exists n', find h' x = Some n' /\ n_kind n' = KOrig p /\ length (n_jt n') = length (n_jt n) /\
+    forall k t t', nth_error (n_jt n) k = Some t -> nth_error (n_jt n') k = Some t' ->
+      t' = t \/ (In t Ss /\ exists i, find h' t' = Some (mkNode t' lvl [new] [] (KAssign [(var, i)]))).
+Proof.
+  intros x n p Hn Hk.
+  destruct parts_cb as [rank [h1 [tbl [M [U [value [_ [HI [HT Hh']]]]]]]]].
+  destruct (node_after_c h1 tbl M U HI Hh' x n Hn) as [n' [Hn' [A _]]].
+  assert (Hl : is_region n = false) by (unfold is_region; rewrite Hk; reflexivity).
+  destruct (A Hl) as [[_ [[Hlen Hpos] K]] _]. exists n'. split; [exact Hn'|].
+  unfold KindRelM in K. rewrite Hk in K. destruct (n_kind n') as [p'| | | |]; try contradiction. rewrite K.
+  split; [reflexivity|]. split; [symmetry; exact Hlen|].
+  intros k t t' Ht Ht'. destruct (Hpos k t t' Ht Ht') as [->|[i Hi]]; [left; reflexivity|right].
+  destruct (iv_mok _ _ _ _ _ _ _ _ HI) as [MO1 _]. destruct (MO1 _ _ _ Hi) as [HsS _]. split; [exact HsS|].
+  exists i. destruct (iv_asg _ _ _ _ _ _ _ _ HI t t' i Hi) as [Ha1 [Ha0 [_ Hanew]]].
+  rewrite (find_h'c h1 tbl M U HI Hh').
+  destruct (Z.eqb_spec t' lvl) as [->|E]; [destruct Hlvl as [nl0 [B _]]; congruence|].
+  destruct (Z.eqb_spec t' new); [contradiction|exact Ha1].
+Qed.
+
 Theorem insert_cb_h_keeps_walks : forall n e e' ds tr st,
   (exists b p, find h n = Some b /\ n_kind b = KOrig p) ->
   E Fc e e' ->
